@@ -131,6 +131,17 @@ def main(argv):
         print('SELFTEST FAILURE: reference codec disagrees with the pinned vectors')
         rc_ = 2
     report = {'codec_vectors': nvec, 'codec_ok': ok, 'determinism': {}}
+    # fidelity of the transport stub against real sockets and the real reactor
+    p = subprocess.run([sys.executable, '-m', 'simdbus.fidelity'], cwd=VERIF, capture_output=True,
+                       text=True, timeout=120)
+    print(p.stdout.strip().splitlines()[-1] if p.stdout.strip() else 'fidelity: no output')
+    for line in p.stdout.splitlines():
+        if line.startswith('FAIL'):
+            print('   ' + line)
+    report['fidelity'] = p.stdout.strip().splitlines()
+    if p.returncode != 0:
+        print('SELFTEST FAILURE: transport-stub fidelity test failed')
+        rc_ = 2
     for prop in props:
         runs = {}
         for label, env, mode in (('hash0', {'PYTHONHASHSEED': '0'}, 'seq'),
